@@ -9,7 +9,7 @@ CHECKS = {
     "C01": dict(
         category="model_checking",
         technique="explicit-state BFS over operation histories on the real reader objects (state = reference cursor + deep hash of all mutable fields), reference bit-string model as oracle; exhaustive alignment x length tables for the bit kernels",
-        text="Every reader composition of the enumerated family (leaves: IOBitReadSeeker, NewBitReader, zero reader, the file stack IOBitReadSeeker(ahead(progress(ctx))); nodes: section/range/multi/clone/zero-pad; nesting 2 quick, 3 thorough) is searched breadth-first over the full operation alphabet (ReadBits/ReadBitsAt/SeekBits x3 whence/ReadFull/ReadAtFull/Clone over a boundary grid) to depth 3 (quick) / 4 (thorough) with state merging by a hash of every mutable field; each transition runs on a fresh real object and is compared with a reference bit string + cursor. Read64/Write64/copyBufBits are tabulated for every alignment and length; IOReader/IOReadSeeker/IOBitWriter/CopyBits and the read-ahead and progress wrappers get their own BFS.",
+        text="Every reader composition of the enumerated family (leaves: IOBitReadSeeker, NewBitReader, zero reader, the file stack IOBitReadSeeker(ahead(progress(ctx))); nodes: section/range/multi/clone/zero-pad; nesting 2 quick, 3 thorough) is searched breadth-first over the full operation alphabet (ReadBits/ReadBitsAt/SeekBits x3 whence/ReadFull/ReadAtFull/Clone over a boundary grid) to depth 3 (quick) / 4 (thorough) with state merging by a hash of every mutable field; each transition runs on a fresh real object and is compared with a reference bit string + cursor. Read64/Write64/copyBufBits are tabulated for every alignment and length; IOReader/IOReadSeeker/IOBitWriter/CopyBits and the read-ahead and progress wrappers get their own BFS. Two-handle search: the original and a clone made mid-stream live together, operations addressed to either, BFS with states merged by the deep hash of both objects. Sections declared longer than their source has left are part of the composition family.",
         design_ref="§C01",
         note="Trusted: the ~150 line reference model (bit slicing + cursor) and the Go reflect based state hash. Bounds: sources <= 3 bytes, window/length grid {0,1,3,7,8,9,15,16,17,64,65}, history depth 3/4, per-composition state cap (reported when hit). Negative read-at offsets and relative seeks in the padded tail of non byte aligned byte views are outside the statement and not judged.",
         engine="seqx",
@@ -28,7 +28,7 @@ CHECKS.update({
     "C04": dict(
         category="exploration",
         technique="exhaustive enumeration of all ordered tuples of <= 4 ranges over buffers of <= 7 bits (thorough: <= 9 bits, 5 ranges <= 6 bits) fed to ranges.Gaps with a bitmap oracle; coverage bitmaps of every gap-filled buffer of every DSL and corpus tree",
-        text="ranges.Gaps is called on every ordered tuple of ranges inside the bound (2.6M calls quick) and its output is checked bit by bit: fields and gaps cover [0,L), no gap overlaps a field, gaps are sorted, disjoint, non-empty and inside total. For decode trees, every buffer decoded with gap filling (top level, length/range delimited sub-formats, nested format buffers) of every DSL program and corpus decode (incl. failed decodes) gets a coverage bitmap: every bit in a non-gap leaf or a gap leaf, no gap leaf overlapping a non-gap leaf, gap content equal to the input bits of its range.",
+        text="ranges.Gaps is called on every ordered tuple of ranges inside the bound (2.6M calls quick) and its output is checked bit by bit: fields and gaps cover [0,L), no gap overlaps a field, gaps are sorted, disjoint, non-empty and inside total. For decode trees, every buffer decoded with gap filling (top level, length/range delimited sub-formats, nested format buffers) of every DSL program and corpus decode (incl. failed decodes) gets a coverage bitmap: every bit in a non-gap leaf or a gap leaf, no gap leaf overlapping a non-gap leaf, gap content equal to the input bits of its range. Layout family: arrays and structs of three leaves each placed by its own range(off, w) window over a grid.",
         design_ref="§C04",
         note="Trusted: the bitmap oracle. The recorded finding (one-bit hole swallowed by the off-by-one adjacency test, pinned by pkg/ranges/ranges_test.go) is recognised only when the output equals a reference merge with tolerance 1 exactly; any other wrong output alarms.",
         engine="enum",
@@ -55,7 +55,7 @@ CHECKS.update({
     "C19": dict(
         category="model_checking",
         technique="BFS over packet histories (state = capture prefix, successor = history + one packet) of generated conversations: every segmentation x interleaving x single deviation (swap, duplicate, overlap, omission, fragmentation), every capture decoded by the real pcap/pcapng decoders and compared with a reference TCP stream / IPv4 defragmentation model",
-        text="Hand-written (gopacket independent) Ethernet/SLL/SLL2/loopback/raw/IPv4/TCP framing and pcap LE/BE/ns and pcapng writers generate every conversation in the bound: 1-2 connections, payload 0..6 bytes per direction, every segmentation into <=3 segments, every interleaving, handshake and FIN present/absent, then every single deviation at every placement (thorough: pairs of deviations), all link types x capture formats, a fragment grid (2 and 3 fragments at every 8 byte boundary in every arrival order), 4 KiB/64 KiB payloads and sequence number wrap. Each capture is decoded by fq and endpoint addresses/ports, stream bytes, skipped_bytes>0 iff data behind a missing byte was captured, has_start/has_end and ipv4_reassembled are compared with a reference stream model (RFC 793/791). Section matrix-dev: single deviations and the fragment grid under every capture format (with ethernet) and every link type (with pcap LE).",
+        text="Hand-written (gopacket independent) Ethernet/SLL/SLL2/loopback/raw/IPv4/TCP framing and pcap LE/BE/ns and pcapng writers generate every conversation in the bound: 1-2 connections, payload 0..6 bytes per direction, every segmentation into <=3 segments, every interleaving, handshake and FIN present/absent, then every single deviation at every placement (thorough: pairs of deviations), all link types x capture formats, a fragment grid (2 and 3 fragments at every 8 byte boundary in every arrival order), 4 KiB/64 KiB payloads and sequence number wrap. Each capture is decoded by fq and endpoint addresses/ports, stream bytes, skipped_bytes>0 iff data behind a missing byte was captured, has_start/has_end and ipv4_reassembled are compared with a reference stream model (RFC 793/791). Section matrix-dev: single deviations and the fragment grid under every capture format (with ethernet) and every link type (with pcap LE). Sections pcapng-sections (two/three sections, every pair of link types, explicit/unspecified lengths, mixed byte order) and longloss (a missing or late segment followed by up to 130 (thorough 1100) segments).",
         design_ref="§C19",
         note="Trusted: the reference stream model and the writer (self-verifying checksums). Not judged: directions without a SYN whose first byte was never captured; exact skipped_bytes value. Known finding: gopacket v1.3.1 Sequence.Difference off by one at the 2^32 wrap (dependency, cannot be repaired inside the repository), isolated in its own section.",
         engine="seqx",
@@ -63,7 +63,7 @@ CHECKS.update({
     "C20": dict(
         category="model_checking",
         technique="stateless DFS over all thread interleavings under a cooperative scheduler with iterated preemption bound (0,1,2,3) then unbounded with state pruning, on ctxstack instrumented at check time by an AST rewriter (access points on every Stack field, go statements, channel close/poll, sync -> shim); vector-clock race detection, deadlock detection, linearizability oracle; plus explicit-state BFS over push/finish/interrupt/stop histories against a stack model",
-        text="(1) BFS to depth 7 (thorough 9) over push (child of the innermost live evaluation or of background) / finish of any handle incl. double and out-of-order finish / interrupt / stop on the real ctxstack.Stack, every context's cancellation state compared with a stack model after every step, states merged by a deep hash of the real object. (2) 11 scenarios of an evaluating thread, the trigger goroutine delivering 1-2 interrupts and an optional stopping thread: every schedule with <= 3 preemptions, then every schedule (state pruned), on a copy of ctxstack.go instrumented at check time from the live source (so removed locks or new unsynchronised accesses are seen); each execution is checked for Go panics, unordered conflicting accesses (vector clocks over spawn, mutex, once, channel close->poll edges), deadlock, livelock and linearizability of what the evaluating thread observes. (3) REPL sessions nested 1..3 levels with the interrupt delivered at the k-th stdout write of a line: nothing of the interrupted evaluation is written afterwards, the same level runs the next line, outer levels survive. (4) iox.CtxWriter and ctxreadseeker over all short Read/Seek/Close sequences with cancellation at every boundary and inside every underlying call. (3b) evaluation histories: lines ending in every way an evaluation can end (value, error, nested eval finished / failed and caught / abandoned) before and as a silent prelude of the line under test, interrupt at the k-th write.",
+        text="(1) BFS to depth 7 (thorough 9) over push (child of the innermost live evaluation or of background) / finish of any handle incl. double and out-of-order finish / interrupt / stop on the real ctxstack.Stack, every context's cancellation state compared with a stack model after every step, states merged by a deep hash of the real object. (2) 11 scenarios of an evaluating thread, the trigger goroutine delivering 1-2 interrupts and an optional stopping thread: every schedule with <= 3 preemptions, then every schedule (state pruned), on a copy of ctxstack.go instrumented at check time from the live source (so removed locks or new unsynchronised accesses are seen); each execution is checked for Go panics, unordered conflicting accesses (vector clocks over spawn, mutex, once, channel close->poll edges), deadlock, livelock and linearizability of what the evaluating thread observes. (3) REPL sessions nested 1..3 levels with the interrupt delivered at the k-th stdout write of a line: nothing of the interrupted evaluation is written afterwards, the same level runs the next line, outer levels survive. (4) iox.CtxWriter and ctxreadseeker over all short Read/Seek/Close sequences with cancellation at every boundary and inside every underlying call. (3b) evaluation histories: lines ending in every way an evaluation can end (value, error, nested eval finished / failed and caught / abandoned) before and as a silent prelude of the line under test, interrupt at the k-th write. ctxreadseeker: cancel points inside an underlying call that stays blocked, overlap detector on the wrapped reader.",
         design_ref="§C20",
         note="Trusted: the scheduler (src/vhook, ~500 lines), the AST rewriter (tools/instr), the stack model. Hooked accesses are explored as sequentially consistent atomic steps. The unbounded pass uses state pruning and decides outcomes and deadlocks; races are decided by the bounded passes. (3) uses a 150 ms settle time after the interrupt token was consumed and re-runs with 1.5 s before reporting; whether ctxreadseeker's worker closes the file after a cancellation that ties with a result hand-over depends on the Go runtime's select choice and is not judged.",
         engine="sched",
@@ -128,7 +128,7 @@ CHECKS.update({
     "C17": dict(
         category="model_checking",
         technique="exhaustive enumeration of argument vectors (every option token of an alphabet derived at run time from fq's option table x every position x programs x all lists of 0..3 inputs of 5 kinds) run in-process through the real CLI entry, against a reference model of exit status, stderr and per-input independence (metamorphic run-alone relation); states = distinct (flag mode, error memory, remaining inputs)",
-        text="244 option tokens (every short/long/alias spelling, --long=value, all 132 ordered pairs of combined bool shorts, valued options with value/=value/missing/bad value, unknown options, --, -1) x every word position x 5 programs (succeeding, failing at run time on some inputs, error, not compiling, variable use) x input lists; all 156 lists of 0..3 inputs over {decodable g1, decodable g2, undecodable, missing, directory} x 10 mode representatives (-n -s -R -Rs -c -j -d json -d image -i); stdin variants. Each run goes through interp.Main with a virtual file system. Oracle: reference model written from doc/usage.md and the jq manual: exit status class and precedence, stdout equal to the concatenation in argument order of what each good input prints when run alone with the same flags, one error line per failing input on stderr in order, error memory (_input_io_errors, _input_decode_errors, _cli_last_expr_error, remaining file names) after every input, jq-compatible mode semantics predicted from the JSON contents of the files.",
+        text="244 option tokens (every short/long/alias spelling, --long=value, all 132 ordered pairs of combined bool shorts, valued options with value/=value/missing/bad value, unknown options, --, -1) x every word position x 5 programs (succeeding, failing at run time on some inputs, error, not compiling, variable use) x input lists; all 156 lists of 0..3 inputs over {decodable g1, decodable g2, undecodable, missing, directory} x 10 mode representatives (-n -s -R -Rs -c -j -d json -d image -i); stdin variants. Each run goes through interp.Main with a virtual file system. Oracle: reference model written from doc/usage.md and the jq manual: exit status class and precedence, stdout equal to the concatenation in argument order of what each good input prints when run alone with the same flags, one error line per failing input on stderr in order, error memory (_input_io_errors, _input_decode_errors, _cli_last_expr_error, remaining file names) after every input, jq-compatible mode semantics predicted from the JSON contents of the files. The alphabet includes =value on short options (alone, as last letter of clusters, on flags without value).",
         design_ref="§C17",
         note="Ambiguities accepted as sets (invalid --arg NAME 2 or 3; help combined with an argument error 0 or 2). Compile failure is detected before inputs are opened. Quick replaces the full token x 156 list product by (modes x all lists) + (tokens x positions x 4 lists); thorough continues with token pairs and all lists until its deadline.",
         engine="enum",
@@ -155,7 +155,7 @@ CHECKS.update({
     "C13": dict(
         category="fault_enumeration",
         technique="exhaustive product of a boundary value pool (input x arguments, per-function option objects derived from Go struct fields and jq parameter accesses) over every function fq adds, enumerated from the registry and bundled jq sources at run time; oracle: Go panic, worker death or uncatchable error",
-        text="769 name/arity pairs computed at run time (53 Go registered functions, 164 public jq defs, 552 generated decode functions). Arity <= 2: full product of input x arguments over 30 base values (49 thorough) plus one single-member option object per option key and value; display/2 and eval/4 use verified pairwise covering arrays in quick. Each call is INPUT | try F(ARGS) catch . on an interpreter seeded with the state fq -n sets up; a Go panic (reproduced 5 times in a fresh interpreter), a worker death or an error escaping try is a violation keyed (function/arity, panic site).",
+        text="769 name/arity pairs computed at run time (53 Go registered functions, 164 public jq defs, 552 generated decode functions). Arity <= 2: full product of input x arguments over 30 base values (49 thorough) plus one single-member option object per option key and value; display/2 and eval/4 use verified pairwise covering arrays in quick. Each call is INPUT | try F(ARGS) catch . on an interpreter seeded with the state fq -n sets up; a Go panic (reproduced 5 times in a fresh interpreter), a worker death or an error escaping try is a violation keyed (function/arity, panic site). Shaped option values: single-site mutations of the default value of every structured option, alone and with every off-by-default boolean option switched on, for every function handing its argument to options/1.",
         design_ref="§C13",
         note="Cases exceeding 2 s CPU / 4 GiB are inconclusive (to_radix(1;..) loops, display with line_bytes 2^31), never alarms. Decode functions only see the pool (no per-format valid samples).",
         engine="enum",
